@@ -5,7 +5,7 @@ from __future__ import annotations
 import typing
 
 from .. import scen, vrt
-from ..chx.api import P, harness, ladder, pick, shard
+from ..chx.api import P, concrete, harness, ladder, pick, shard
 from ..vnet.core import Net
 from ..vnet.servers import H1Server, Resp
 
@@ -35,12 +35,21 @@ def handover(cut: int, m0: int, m1: int, m2: int) -> None:
     pre: 0 <= m0 <= 2 and 0 <= m1 <= 2 and 0 <= m2 <= 2
     post: _
     """
+    d = shard("d", 3)
+    c = ladder(cut, 0, d + 1)
+    ms = [ladder(m, 0, 2) for m in (m0, m1, m2)]
+    with concrete(c, *ms):
+        _handover(c, ms)
+
+
+def _handover(c: int, ms: list[int]) -> None:
     is_async = shard("flavour", "sync") == "async"
     kind = shard("kind", "101")
     d = shard("d", 3)
     data = DATA[:d]
     sizes = (1, 2, 64)
     one = shard("one", False)
+    m0, m1, m2 = ms
 
     def responder(req: typing.Any, n: int) -> Resp:
         if req.method == b"CONNECT":
@@ -59,8 +68,7 @@ def handover(cut: int, m0: int, m1: int, m2: int) -> None:
     if one:
         cuts: typing.Any = "one"
     else:
-        c = ladder(cut, 0, d + 1)  # cut position: head_len - 1 + c
-        cuts = [head_len - 1 + c]
+        cuts = [head_len - 1 + c]  # cut position relative to the end of the head
     net = Net(lambda net, sock: H1Server(respond=responder), cuts=cuts)
     pool = scen.make_pool(is_async, net, max_connections=2)
     api = scen.Api(is_async)
@@ -86,7 +94,7 @@ def handover(cut: int, m0: int, m1: int, m2: int) -> None:
         return scen.call(stream.read, n, 5)
 
     for m in (m0, m1, m2):
-        n = pick(m, sizes)
+        n = sizes[m]
         if len(got) >= len(data):
             break
         r = rd(n)
